@@ -85,3 +85,7 @@ def trusted_base(prop):
 def assumptions(prop):
     return ["otherwise idle system: steps cost no time; the clock advances only while the daemon sleeps and no creator is mid-creation",
             "INTERVAL = 0.1 s in the real code (asserted); lock-step runs use 0.125 s so that all floats are exact"]
+
+
+for _k in list(RULE):      # RULE-EXTRA: what was added to the exploration after the rounds of seeded changes
+    RULE[_k] += '; plus monitor-only jobs: a daemon that dies (C14), Tills dropped while pending, Tills with seconds=inf, line-mode jobs'
